@@ -140,6 +140,58 @@ set_option maxRecDepth 100000 in
 theorem ownership_paths :
     (entryPoints.all fun s => ctxIds.all fun k => (traces (slice (keepK k) s)).all okK) = true := by decide +kernel
 
+/-! ### the model's own `covers` on the extracted preparation steps
+
+`prepare_fresh` (Props/C03) needs `Pool.covers {} steps` for the preparation a serve path performs before the first
+handler. Here the events of a context between its get (or its last reset) and every `run` are translated into model
+`Step`s and the MODEL's `covers` is evaluated on them, on every path — the side condition of the theorem is checked on
+the code's skeleton with the theorem's own definition, not with a look-alike. -/
+
+def mpRunEv : Ev → Bool
+  | .run .. => true
+  | _ => false
+
+/-- the model step of an assignment to field `f` (the assigned value does not matter to `covers`) -/
+def fieldStep (f : Nat) : List Rivaas.Pool.Step :=
+  if f == fRequest then [.setRequest 0] else if f == fResponse then [.setResponse 0]
+  else if f == fHandlers then [.setHandlers 0] else if f == fRouter then [.setRouter 0]
+  else if f == fIndex then [.setIndex 0] else if f == fParamCount then [.zeroCount] else []
+
+/-- at every `run` event the steps since the get / the last reset satisfy the model's `covers` -/
+def coversAtRuns (acc : List Rivaas.Pool.Step) : List Ev → Bool
+  | [] => true
+  | .run _ _ :: r => Rivaas.Pool.covers {} acc.reverse && coversAtRuns acc r
+  | .reset _ :: r => coversAtRuns [] r
+  | .assign _ f :: r => coversAtRuns ((fieldStep f).reverse ++ acc) r
+  | .use _ w :: r => if w == 0 then coversAtRuns acc r else coversAtRuns (.writeParam [] [] :: acc) r
+  | _ :: r => coversAtRuns acc r
+
+def coversK : List Ev → Bool
+  | .get _ :: r => coversAtRuns [] (unroll none r)
+  | _ => true
+
+set_option maxRecDepth 100000 in
+/-- regenerated obligation: the hypothesis `covers` of `C03.prepare_fresh`, evaluated with the model's definition on
+    the steps extracted from every path, for every pooled context, before every handler / responder that runs on it -/
+theorem covers_on_paths :
+    (entryPoints.all fun s => ctxIds.all fun k => (traces (slice (keepK k) s)).all coversK) = true := by decide +kernel
+
+/-- non-vacuity: a handler that runs on an unprepared context is rejected; a parameter-writing lookup before
+    `paramCount = 0` is rejected; and the skeleton does contain paths on which a handler runs -/
+example : coversK [.get 0, .run 0 1] = false ∧
+    coversK [.get 0, .assign 0 fRequest, .assign 0 fResponse, .assign 0 fRouter, .assign 0 fIndex, .use 0 3,
+             .assign 0 fParamCount, .run 0 1] = false ∧
+    ((traces (slice (keepK 0) serveHTTP)).any fun t => t.any mpRunEv) = true := by
+  refine ⟨by decide, by decide, by decide +kernel⟩
+
+theorem covers_exec (ρ : Atom → Bool) (s : Stmt) (hs : s ∈ entryPoints) (k : Nat) (hk : k ∈ ctxIds) :
+    coversK ((exec ρ s).trace.filter (keepK k)) = true := by
+  have h := covers_on_paths
+  rw [List.all_eq_true] at h
+  have h2 := h s hs
+  rw [List.all_eq_true] at h2
+  exact all_exec_slice s (keepK k) coversK (h2 k hk) ρ
+
 theorem ownership (ρ : Atom → Bool) (s : Stmt) (hs : s ∈ entryPoints) (k : Nat) (hk : k ∈ ctxIds) :
     okK ((exec ρ s).trace.filter (keepK k)) = true := by
   have h := ownership_paths
